@@ -20,7 +20,7 @@ type TmplData struct {
 	} // method may return one result or not
 	ErrReturnMap    map[string]string
 	BodyParamMap    map[string]string
-	QueryDictMap    map[string]string
+	QueryDictMap    map[string][]string
 	DefaultHeaders  map[string]map[string]string
 	CtxParamMap     map[string]string
 	BodyHTTPMethods []string
